@@ -728,6 +728,75 @@ func famConc(tr *Trace, scratch string, seed int64, tier string) M {
 			}
 		}
 	}
+	// packages of DIFFERENT configurations built at the same time by one packager (independently parsed): whatever the
+	// packager keeps between calls belongs to one call
+	type mixedRes struct {
+		f      string
+		outs   [][]string
+		panics int
+		first  string
+	}
+	var mixedShapes []*isoShape
+	for _, s := range shapes {
+		if s.name != "large-file" && !s.signed {
+			mixedShapes = append(mixedShapes, s)
+		}
+	}
+	var mixed []*mixedRes
+	for _, f := range allFormats {
+		mr := &mixedRes{f: f}
+		for _, procs := range []int{16, 4} {
+			old := runtime.GOMAXPROCS(procs)
+			for it := 0; it < 2; it++ {
+				var wg sync.WaitGroup
+				start := make(chan struct{})
+				res := make([]string, len(mixedShapes))
+				if sequential {
+					close(start)
+				}
+				for gi, s := range mixedShapes {
+					wg.Add(1)
+					go func(gi int, s *isoShape) {
+						defer wg.Done()
+						defer func() {
+							if r := recover(); r != nil {
+								res[gi] = "panic"
+								panicMu.Lock()
+								mr.panics++
+								if mr.first == "" {
+									mr.first = fmt.Sprint(r)
+								}
+								panicMu.Unlock()
+							}
+						}()
+						c2, err := s.parse()
+						if err != nil {
+							res[gi] = "err"
+							return
+						}
+						<-start
+						b, _, err := buildFormat(&c2, f)
+						if err != nil {
+							res[gi] = "err"
+							return
+						}
+						res[gi] = hashBytes(b)
+					}(gi, s)
+					if sequential {
+						wg.Wait()
+					}
+				}
+				if !sequential {
+					close(start)
+				}
+				wg.Wait()
+				mr.outs = append(mr.outs, res)
+				runs++
+			}
+			runtime.GOMAXPROCS(old)
+		}
+		mixed = append(mixed, mr)
+	}
 	seqOf := map[string]map[string]string{}
 	for _, s := range shapes {
 		seq := map[string]string{}
@@ -761,6 +830,21 @@ func famConc(tr *Trace, scratch string, seed int64, tier string) M {
 		tr.Emit(id, []M{{"ev": "case", "id": id, "fam": "conc", "shape": cr.s.name},
 			{"ev": "conc", "shape": cr.s.name, "mode": cr.mode, "formats": fm, "builds": total, "mismatches": mismatches,
 				"panics": cr.panics, "first_panic": safeStr(firstN(cr.first, 300))}, {"ev": "endcase"}})
+	}
+	for _, mr := range mixed {
+		id++
+		mismatches, total := 0, 0
+		for _, res := range mr.outs {
+			for gi, s := range mixedShapes {
+				total++
+				if res[gi] != seqOf[s.name][mr.f] {
+					mismatches++
+				}
+			}
+		}
+		tr.Emit(id, []M{{"ev": "case", "id": id, "fam": "conc", "shape": "mixed-shapes"},
+			{"ev": "conc", "shape": "mixed-shapes", "mode": "independent-configs", "formats": []any{mr.f}, "builds": total, "mismatches": mismatches,
+				"panics": mr.panics, "first_panic": safeStr(firstN(mr.first, 300))}, {"ev": "endcase"}})
 	}
 	return M{"cases": id, "concurrent_rounds": runs}
 }
